@@ -102,8 +102,16 @@ def free_exec(chk, repo, f, sym):
             todo = list(draws)
             drawn, probes, stolen, rargs = [], [], set(), []
 
-            def ri(*a, _t=todo, _d=drawn, _r=rargs):
-                _r.append(a)
+            def ri(*a, _t=todo, _d=drawn, _r=rargs, _k="randint"):
+                # the bounds asked for, inclusive, whatever the function
+                if _k == "choice":
+                    seq = list(a[0]) if a else []
+                    _r.append((min(seq), max(seq)) if seq and len(seq) ==
+                              max(seq) - min(seq) + 1 else ("choice", ))
+                elif _k == "randrange":
+                    _r.append((a[0], a[1] - 1) if len(a) == 2 else a)
+                else:
+                    _r.append(a)
                 if not _t:
                     raise Budget("more candidates drawn than the scenario "
                                  "needs")
@@ -120,11 +128,24 @@ def free_exec(chk, repo, f, sym):
                 if addr in _o:
                     return (addr,)
                 raise Raised("EtherCatError: datagram was not processed")
-            me = Obj(ec, {"roundtrip": ("hook", rt), "used_addresses": used,
-                          "terminal_addr_range": rng})
+            fns = {"randint": ("hook", ri),
+                   "randrange": ("hook", lambda *a, _f=ri: _f(
+                       *a, _k="randrange")),
+                   "choice": ("hook", lambda *a, _f=ri: _f(
+                       *a, _k="choice"))}
             try:
-                r = Evaluator(repo, f._module, ec, {
-                    "randint": ("hook", ri)}).call_function(f, [me], cls=ec)
+                # a master as its constructor leaves it, configured
+                # afterwards
+                me = Evaluator(repo, f._module, ec, fns).construct(
+                    ec, ["eth0"], {})
+            except (Unknown, Raised):
+                me = Obj(ec, {})
+            me.fields.update({"roundtrip": ("hook", rt),
+                              "used_addresses": used,
+                              "terminal_addr_range": rng})
+            try:
+                r = Evaluator(repo, f._module, ec, fns).call_function(
+                    f, [me], cls=ec)
             except Budget as e:
                 r = f"does not end ({e})"
             except Unknown:
